@@ -11,7 +11,7 @@ extern "C" unsigned rksim_lane_bit();
 
 namespace {
 C02Plan plan;
-enum { MAXID = C02_MAXITEMS + 2100 };
+enum { MAXID = C02_MAXITEMS + 2200 };
 struct St
 {
   int exec[MAXID];
@@ -89,6 +89,10 @@ void do_plan(int tier)
     static const int idles[] = {0, 40, 400, 1100, 1300, 1500, 1800};
     for (int k = 0; k < plan.sporadic; k++)
       plan.sporadic_idle[k] = idles[sim_plan(7)] + (int)sim_plan(300);
+    // two functions handed over back to back to sleeping workers, the first one long-lived (it waits for the second):
+    // needs two workers besides the caller
+    for (int k = 0; k < plan.sporadic; k++)
+      plan.sporadic_pair[k] = (plan.reinit_threads > 0 ? plan.reinit_threads : plan.init_threads) >= 3 && (lane == LANE_INTERNAL || lane == LANE_TBB) && sim_plan(3) == 0;
   }
   if (plan.burst > 256)
     sim_probe(P_BURST_GT_256);
@@ -257,6 +261,12 @@ void c02_wait_one(int id)
   if (!st.exec_done[id])
     sim_fail("C02:never-executed", "a function handed to schedule() after an idle period did not run within the fair bound although the caller only waited (lost wake-up)");
   sim_set_fair(0);
+}
+
+void c02_wait_for(int id)
+{
+  while (!st.exec_done[id])
+    sim_yield();
 }
 
 void c02_drain()
